@@ -177,19 +177,30 @@ func mutPattern(r *hx.Rand, h string) string {
 func patElem(r *hx.Rand, g *hx.Gen, w *world) string {
 	base := pickHost(r)
 	p := mutPattern(r, base)
+	if strings.ContainsAny(p, "*?") {
+		w.feat = append(w.feat, "wildcard")
+	} else {
+		w.feat = append(w.feat, "literal")
+	}
+	if strings.Contains(base, ":") {
+		w.feat = append(w.feat, "ipv6")
+	}
 	if r.Chance(1, 8) {
 		p = mixCase(r, p)
 		g.Stat("pat.mixed-case")
+		w.feat = append(w.feat, "mixed-case")
 	}
 	port := "22"
 	switch r.Intn(10) {
 	case 0, 1:
 		g.Stat("pat.bracket-port")
+		w.feat = append(w.feat, "bracket-port")
 		port = hx.Pick(r, portPool)
 		p = "[" + p + "]:" + port
 	case 2:
 		if !strings.Contains(p, ":") {
 			g.Stat("pat.bare-port")
+			w.feat = append(w.feat, "bare-port")
 			port = hx.Pick(r, portPool)
 			p = p + ":" + port
 		}
@@ -197,6 +208,7 @@ func patElem(r *hx.Rand, g *hx.Gen, w *world) string {
 	w.lastH = append(w.lastH, lineRec{host: base, port: port})
 	if r.Chance(1, 6) {
 		g.Stat("pat.negated")
+		w.feat = append(w.feat, "negated")
 		p = "!" + p
 	}
 	return p
@@ -256,14 +268,23 @@ func hashedField(r *hx.Rand, g *hx.Gen, w *world) string {
 	case 0:
 		typ = "2"
 		g.Stat("hashed.bad-type")
+		hitT("hashed-error", "bad-type")
 	case 1:
 		h = h[:19]
+		hitT("hashed-error", "short-hash")
 	case 2:
 		g.Stat("hashed.malformed")
-		return r.PickStr("|1|"+base64.StdEncoding.EncodeToString(salt), "|1|a|b|c", "|", "|1||", "|1|!!|"+base64.StdEncoding.EncodeToString(h),
-			"|1|"+base64.RawStdEncoding.EncodeToString(salt)+"|"+base64.StdEncoding.EncodeToString(h))
+		shapes := []string{"|1|" + base64.StdEncoding.EncodeToString(salt), "|1|a|b|c", "|", "|1||", "|1|!!|" + base64.StdEncoding.EncodeToString(h),
+			"|1|" + base64.RawStdEncoding.EncodeToString(salt) + "|" + base64.StdEncoding.EncodeToString(h)}
+		mi := r.Intn(len(shapes))
+		hitT("hashed-error", "malformed-"+strconv.Itoa(mi))
+		return shapes[mi]
 	}
 	g.Stat("hashed")
+	w.feat = append(w.feat, "hashed")
+	if port != "22" {
+		w.feat = append(w.feat, "hashed-port")
+	}
 	return "|" + typ + "|" + base64.StdEncoding.EncodeToString(salt) + "|" + base64.StdEncoding.EncodeToString(h)
 }
 
@@ -279,6 +300,7 @@ type world struct {
 	keys  []ukey
 	cas   []ukey
 	certs []certSpec // presented certificates
+	feat  []string   // features of the line under construction (for the pair.* counters)
 	used  []lineRec  // per file: what the lines were built from (to aim the queries)
 	lastH []lineRec  // hosts of the line under construction
 }
@@ -332,7 +354,15 @@ func genLine(r *hx.Rand, g *hx.Gen, w *world, malformedPct int) string {
 		g.Stat("line.malformed")
 		t, b := keyFields(hx.Pick(r, w.keys).pub)
 		h := hostField(r, g, w)
-		switch r.Intn(17) {
+		arm := r.Intn(17)
+		hitT("parse-error", strconv.Itoa(arm))
+		if arm == 5 {
+			hitT("marker", "unknown")
+		}
+		if arm == 6 {
+			hitT("marker", "double")
+		}
+		switch arm {
 		case 0:
 			return h
 		case 1:
@@ -370,6 +400,7 @@ func genLine(r *hx.Rand, g *hx.Gen, w *world, malformedPct int) string {
 		}
 	}
 	w.lastH = w.lastH[:0]
+	w.feat = w.feat[:0]
 	var k ssh.PublicKey
 	marker := ""
 	switch r.Intn(12) {
@@ -413,6 +444,32 @@ func genLine(r *hx.Rand, g *hx.Gen, w *world, malformedPct int) string {
 	}
 	if marker == "@revoked" && r.Chance(1, 4) {
 		h = r.PickStr("!", "[x", "|bogus", "*") // the pattern of a @revoked line is never parsed
+	}
+	mk := "unmarked"
+	if marker != "" {
+		mk = marker[1:]
+	}
+	if _, isCert := k.(*ssh.Certificate); isCert {
+		w.feat = append(w.feat, "cert-blob-key")
+	}
+	hitT("marker", mk)
+	seen := map[string]bool{}
+	for _, f := range w.feat {
+		if !seen[f] {
+			seen[f] = true
+			g.Stat("pair." + mk + "+" + f)
+		}
+	}
+	for i, a := range w.feat {
+		for _, b := range w.feat[i+1:] {
+			if a != b && !seen[a+"|"+b] && !seen[b+"|"+a] {
+				seen[a+"|"+b] = true
+				if a > b {
+					a, b = b, a
+				}
+				g.Stat("pair." + a + "+" + b)
+			}
+		}
 	}
 	s := ""
 	if r.Chance(1, 10) {
@@ -553,6 +610,30 @@ func genQueries(r *hx.Rand, g *hx.Gen, w *world, t *idtab, n int) (string, strin
 				g.Stat("query.plain")
 			}
 		}
+		form := "host:port"
+		switch {
+		case addr == "":
+			form = "empty-host-name"
+		case strings.HasPrefix(addr, "["):
+			form = "bracketed"
+		case !strings.Contains(addr, ":"):
+			form = "no-port"
+		}
+		if _, _, e := net.SplitHostPort(addr); e != nil && addr != "" {
+			form = "malformed"
+		}
+		kk := "plain"
+		if seenCert[id] {
+			kk = "cert"
+		}
+		g.Stat("pair.query-" + kk + "+" + form)
+		if rec != nil {
+			mk := "unmarked"
+			if rec.marker != "" {
+				mk = rec.marker[1:]
+			}
+			g.Stat("pair.query-" + kk + "+line-" + mk)
+		}
 		qs = append(qs, fmt.Sprintf("%s/%s/%d", hx.Hex([]byte(addr)), hx.Hex([]byte(remote)), id))
 	}
 	cs := "-"
@@ -560,6 +641,13 @@ func genQueries(r *hx.Rand, g *hx.Gen, w *world, t *idtab, n int) (string, strin
 		cs = strings.Join(certs, ";")
 	}
 	return strings.Join(qs, ","), cs
+}
+
+func joinSemi(xs []string) string {
+	if len(xs) == 0 {
+		return "-"
+	}
+	return strings.Join(xs, ";")
 }
 
 func ktStr(t *idtab) string {
@@ -589,8 +677,30 @@ func hexList(xs []string) string {
 	return strings.Join(o, ",")
 }
 
+var tableHits = map[string]map[string]bool{}
+var tableTotal = map[string]int{
+	"marker":          5,  // unmarked cert-authority revoked unknown double
+	"parse-error":     17, // the malformed-line classes of genLine
+	"hashed-error":    8,  // bad type, short hash, 6 malformed shapes
+	"splithostport":   7,  // ok-plain ok-bracket + the 5 AddrError reasons
+	"normalize":       4,  // split ok / port 22, split ok / other port, no split, brackets stripped
+	"base64-decode":   7,  // ok, ok with CR/LF, bad char, bad length, bad padding, trailing bits, empty
+}
+
+func hitT(table, arm string) {
+	if tableHits[table] == nil {
+		tableHits[table] = map[string]bool{}
+	}
+	tableHits[table][arm] = true
+}
+
 func gen(g *hx.Gen) {
 	r := g.R
+	defer func() {
+		for tb, tot := range tableTotal {
+			g.Stat(fmt.Sprintf("table.%s=%d/%d", tb, len(tableHits[tb]), tot))
+		}
+	}()
 	now := uint64(time.Now().Unix())
 	w := newWorld(r, now)
 	nFiles := g.Count(1500, 20000)
@@ -755,6 +865,35 @@ func gen(g *hx.Gen) {
 		g.Stat("skl." + mode + "-found-by-ssh-keygen")
 		g.Emit("skl mode=%s addrs=%s type=%s blob=%s salt=%s kt=%s key=%d", mode, hexList(addrs), hx.Hex([]byte(k.Type())), hx.Hex(k.Marshal()), hx.Hex(r.Bytes(20)), ktStr(t), t.id(k))
 	}
+	// New(files...) with 0..3 files (one database: line numbers per file, @revoked across files, a file
+	// that does not exist); the answer also carries KeyError.Error()'s unknown/mismatch class and the
+	// harness checks KnownKey.String() / Filename
+	nM := g.Count(80, 3000)
+	for i := 0; i < nM; i++ {
+		nf := r.PickInt(0, 1, 2, 2, 3, 3)
+		var fl []string
+		var all []byte
+		w.used = w.used[:0]
+		var usedAll []lineRec
+		for j := 0; j < nf; j++ {
+			if r.Chance(1, 10) {
+				fl = append(fl, "x")
+				g.Stat("khm.missing-file")
+				continue
+			}
+			f := genFile(r, g, w, 5, 2)
+			usedAll = append(usedAll, w.used...)
+			all = append(all, f...)
+			all = append(all, '\n')
+			fl = append(fl, hx.Hex(f))
+		}
+		w.used = usedAll
+		t := newIDs()
+		t.scanFile(all)
+		q, certs := genQueries(r, g, w, t, 6)
+		g.Stat(fmt.Sprintf("khm.files-%d", nf))
+		g.Emit("khm now=%d files=%s kt=%s certs=%s q=%s", now, joinSemi(fl), ktStr(t), certs, q)
+	}
 	// wildcardMatch, small-scope exhaustive: every pattern over {a,b,*,?} of length 1..5 that contains a
 	// wildcard against every host over {a,b} of length 0..7 (one file line per pattern, the answer for a host
 	// is the set of matching lines), plus self-overlapping / domain-shaped patterns with pumped hosts —
@@ -915,6 +1054,24 @@ func gen(g *hx.Gen) {
 			if r.Chance(1, 3) {
 				s = genAddr(r)
 			}
+			if _, p, e := net.SplitHostPort(s); e == nil {
+				if strings.HasPrefix(s, "[") {
+					hitT("splithostport", "ok-bracket")
+				} else {
+					hitT("splithostport", "ok-plain")
+				}
+				if p == "22" {
+					hitT("normalize", "port22")
+				} else {
+					hitT("normalize", "other-port")
+				}
+			} else {
+				hitT("splithostport", e.(*net.AddrError).Err)
+				hitT("normalize", "no-split")
+				if strings.HasPrefix(s, "[") && strings.HasSuffix(s, "]") {
+					hitT("normalize", "brackets-stripped")
+				}
+			}
 			g.Emit("shp s=%s", hx.Hex([]byte(s)))
 			if i%2 == 0 {
 				g.Emit("norm a=%s", hx.Hex([]byte(s)))
@@ -943,6 +1100,22 @@ func gen(g *hx.Gen) {
 					}
 					b[i] = "BCDEFGHP"[r.Intn(8)]
 				}
+			}
+			switch dec, e := base64.StdEncoding.DecodeString(string(b)); {
+			case e != nil && bytes.ContainsAny(b, "!-_ "):
+				hitT("base64-decode", "bad-char")
+			case e != nil && len(bytes.Trim(b, "\r\n"))%4 != 0:
+				hitT("base64-decode", "bad-length")
+			case e != nil:
+				hitT("base64-decode", "bad-padding")
+			case len(b) == 0:
+				hitT("base64-decode", "empty")
+			case bytes.ContainsAny(b, "\r\n"):
+				hitT("base64-decode", "ok-crlf")
+			case base64.StdEncoding.EncodeToString(dec) != string(b):
+				hitT("base64-decode", "trailing-bits")
+			default:
+				hitT("base64-decode", "ok")
 			}
 			g.Emit("b64d s=%s", hx.Hex(b))
 		case 2:
@@ -1101,6 +1274,103 @@ func execKeygen(o hx.Op) string {
 	return "lines:" + goLines + " keygen:" + hx.JoinInts(kg)
 }
 
+// execKHM: knownhosts.New over several files
+func execKHM(o hx.Op) string {
+	var specs []string
+	if v := o.Str("files"); v != "-" && v != "" {
+		specs = strings.Split(v, ";")
+	}
+	paths := make([]string, len(specs))
+	contents := make([][]byte, len(specs))
+	for i, sp := range specs {
+		if sp == "x" {
+			paths[i] = tmpFile(nil) + ".missing"
+			os.Remove(strings.TrimSuffix(paths[i], ".missing"))
+			continue
+		}
+		contents[i] = hx.UnHex(sp)
+		paths[i] = tmpFile(contents[i])
+		defer os.Remove(paths[i])
+	}
+	cb, err := knownhosts.New(paths...)
+	if err != nil {
+		for k := 1; k <= len(paths); k++ { // the first file that makes New fail
+			if _, e := knownhosts.New(paths[:k]...); e != nil {
+				if specs[k-1] == "x" {
+					if !errors.Is(e, os.ErrNotExist) {
+						return "open-err-other"
+					}
+					return "open-err:" + strconv.Itoa(k-1)
+				}
+				lines := bytes.Split(contents[k-1], []byte("\n"))
+				lo, hi := 0, len(lines)
+				for hi-lo > 1 {
+					mid := (lo + hi) / 2
+					pf := tmpFile(bytes.Join(lines[:mid], []byte("\n")))
+					_, e2 := knownhosts.New(append(append([]string{}, paths[:k-1]...), pf)...)
+					os.Remove(pf)
+					if e2 != nil {
+						hi = mid
+					} else {
+						lo = mid
+					}
+				}
+				return fmt.Sprintf("parse-err:%d.%d", k-1, hi)
+			}
+		}
+		return "err?"
+	}
+	fileIdx := func(fn string) int {
+		for i, p := range paths {
+			if p == fn {
+				return i
+			}
+		}
+		return -1
+	}
+	var out []string
+	for _, q := range o.List("q") {
+		f := strings.Split(q, "/")
+		k := keyByID(o, f[2])
+		err := cb(string(hx.UnHex(f[0])), strAddr(hx.UnHex(f[1])), k)
+		var ke *knownhosts.KeyError
+		var re *knownhosts.RevokedError
+		switch {
+		case err == nil:
+			out = append(out, "ok")
+		case errors.As(err, &ke):
+			var ls []string
+			for _, kk := range ke.Want {
+				want := fmt.Sprintf("%s:%d: %s %s", kk.Filename, kk.Line, kk.Key.Type(), base64.StdEncoding.EncodeToString(kk.Key.Marshal()))
+				if kk.String() != want {
+					return "knownkey-string-bad"
+				}
+				ls = append(ls, fmt.Sprintf("%d.%d", fileIdx(kk.Filename), kk.Line))
+			}
+			cls := "/other"
+			switch ke.Error() {
+			case "knownhosts: key is unknown":
+				cls = "/u"
+			case "knownhosts: key mismatch":
+				cls = "/m"
+			}
+			if len(ls) == 0 {
+				out = append(out, "keyerr:-"+cls)
+			} else {
+				out = append(out, "keyerr:"+strings.Join(ls, ",")+cls)
+			}
+		case errors.As(err, &re):
+			if re.Error() != "knownhosts: key is revoked" {
+				return "revoked-error-string-bad"
+			}
+			out = append(out, fmt.Sprintf("revoked:%d.%d", fileIdx(re.Revoked.Filename), re.Revoked.Line))
+		default:
+			out = append(out, "reject")
+		}
+	}
+	return strings.Join(out, "|")
+}
+
 // execSKL: the real Line / HashHostname output, looked up through the callback and through ssh-keygen -F
 func execSKL(o hx.Op) string {
 	k, err := ssh.ParsePublicKey(o.Hex("blob"))
@@ -1193,6 +1463,8 @@ func exec(line string) string {
 		return execWM(o)
 	case "skl":
 		return execSKL(o)
+	case "khm":
+		return execKHM(o)
 	case "lq":
 		k, err := ssh.ParsePublicKey(o.Hex("blob"))
 		if err != nil {
